@@ -340,6 +340,16 @@ Definition covered (frs : list fdef) (o : opdef) (mix unp : list string) : bool 
                        | Some f => forallb (fun n => mem n rec) (sel_spreads (fd_sel f))
                        | None => false end) unp.
 
+(* what was recorded is reachable from the operation (second half of the guard of fragments_exact) *)
+Definition recorded_reachable (fuel : nat) (frs : list fdef) (o : opdef) (mix unp : list string) : bool :=
+  match frag_names fuel frs (sel_spreads (o_sel o)) with
+  | Some r => forallb (fun n => mem n r) (mix ++ unp)
+  | None => false
+  end.
+
+Definition exact_guard (fuel : nat) (frs : list fdef) (o : opdef) (mix unp : list string) : bool :=
+  covered frs o mix unp && recorded_reachable fuel frs o mix unp.
+
 (* ---- sexp interface ---- *)
 Definition e_doc (d : list ddef) : sexp := L (map e_ddef d).
 
@@ -369,7 +379,8 @@ Definition run_opstr (e : sexp) : sexp :=
                                    (o_sel o) false ;;
                          Ok (out ++ [L [L (map A (sorted_set (ps_mix st))); L (map A (sorted_set (ps_unp st)));
                                         sOpt (fun l => L (map A l)) (related fuel fs (ps_mix st) (ps_unp st));
-                                        sB (covered fs o (ps_mix st) (ps_unp st))]],
+                                        sB (covered fs o (ps_mix st) (ps_unp st));
+                                        sB (recorded_reachable fuel fs o (ps_mix st) (ps_unp st))]],
                              ps_ins st)) os (Ok ([], ins0)) in
               match r with
               | Ok (out, _) => L [A "ok"; L out]
